@@ -71,10 +71,21 @@ func PlayMulti(beh M, rng *rand.Rand, proj *Projection) ([][]M, error) {
 		id := 1000*(c+1) + nid
 		oid := rowTypes[(c+nid)%len(rowTypes)]
 		col := []any{M{"name": fmt.Sprintf("v%d", id), "oid": oid}}
+		// a second, text column whose value is NULL on one connection and empty on the next: whatever one
+		// session's NULL leaves behind must not turn another session's empty value into NULL
+		col = append(col, M{"name": fmt.Sprintf("w%d", id), "oid": 25})
+		second := []M{{"c": "null", "nk": "nil"}, {"c": "empty"}, {"c": "empty"}, {"c": "v"}}[(c+nid+I(beh, "_i"))%4]
+		row := func(first M) []any {
+			cell := M{"c": second["c"]} // a fresh cell: concretisation writes into it
+			if nk, has := second["nk"]; has {
+				cell["nk"] = nk
+			}
+			return []any{first, cell}
+		}
 		switch kind {
 		case "x":
 			// a statement whose first row cannot be encoded (the error is reported to the handler), then a good row
-			st := M{"id": id, "cols": col, "oids": []any{}, "prog": []any{M{"op": "row", "cells": []any{M{"c": "bad"}}}, M{"op": "row", "cells": []any{M{"c": "v"}}}, M{"op": "complete", "tag": "X"}, M{"op": "ret", "r": "nil"}}}
+			st := M{"id": id, "cols": col, "oids": []any{}, "prog": []any{M{"op": "row", "cells": row(M{"c": "bad"})}, M{"op": "row", "cells": row(M{"c": "v"})}, M{"op": "complete", "tag": "X"}, M{"op": "ret", "r": "nil"}}}
 			send(c, M{"t": "Q", "q": M{"id": id, "parse": "ok", "stmts": []any{st}}}, true)
 			return
 		case "e":
@@ -82,18 +93,18 @@ func PlayMulti(beh M, rng *rand.Rand, proj *Projection) ([][]M, error) {
 			s.mu.Lock()
 			s.ParkOnce[actor(c)] = "encode.exit"
 			s.mu.Unlock()
-			st := M{"id": id, "cols": col, "oids": []any{}, "prog": []any{M{"op": "row", "cells": []any{M{"c": "v"}}}, M{"op": "complete", "tag": "E"}, M{"op": "ret", "r": "nil"}}}
+			st := M{"id": id, "cols": col, "oids": []any{}, "prog": []any{M{"op": "row", "cells": row(M{"c": "v"})}, M{"op": "complete", "tag": "E"}, M{"op": "ret", "r": "nil"}}}
 			send(c, M{"t": "Q", "q": M{"id": id, "parse": "ok", "stmts": []any{st}}}, true)
 			return
 		}
 		if kind == "g" {
 			// a simple Query whose statement function parks at a gate, then writes a row
-			st := M{"id": id, "cols": col, "oids": []any{}, "prog": []any{M{"op": "gate", "p": "h.enter"}, M{"op": "row", "cells": []any{M{"c": "v"}}}, M{"op": "complete", "tag": "G"}, M{"op": "ret", "r": "nil"}}}
+			st := M{"id": id, "cols": col, "oids": []any{}, "prog": []any{M{"op": "gate", "p": "h.enter"}, M{"op": "row", "cells": row(M{"c": "v"})}, M{"op": "complete", "tag": "G"}, M{"op": "ret", "r": "nil"}}}
 			send(c, M{"t": "Q", "q": M{"id": id, "parse": "ok", "stmts": []any{st}}}, true)
 			return
 		}
 		// Parse a / Bind p<-a / Describe p / Execute p / Sync: same names on every connection
-		st := M{"id": id, "cols": col, "oids": []any{}, "prog": []any{M{"op": "row", "cells": []any{M{"c": "v"}}}, M{"op": "complete", "tag": "M"}, M{"op": "ret", "r": "nil"}}}
+		st := M{"id": id, "cols": col, "oids": []any{}, "prog": []any{M{"op": "row", "cells": row(M{"c": "v"})}, M{"op": "complete", "tag": "M"}, M{"op": "ret", "r": "nil"}}}
 		send(c, M{"t": "P", "name": "a", "q": M{"id": id, "parse": "ok", "stmts": []any{st}}, "noids": 0}, true)
 		send(c, M{"t": "B", "portal": "p", "stmt": "a", "pfmt": []any{}, "params": []any{M{"null": false, "cls": "short"}}, "rfmt": []any{}}, true)
 		send(c, M{"t": "E", "portal": "p", "max": 0}, true)
